@@ -563,8 +563,16 @@ let m_emitirr (f : Stdlib.String.t list) : Stdlib.String.t =
    | None -> Buffer.add_string out "NOGAME\n");
   Buffer.contents out
 
+(* inclass: <hex>: is this file the canonical stream of a well-formed replay (Model/Abstract.v in_class)? *)
+let m_inclass (f : Stdlib.String.t list) : Stdlib.String.t =
+  match api_in_class (bytes_of_hex (Stdlib.List.nth f 0)) with
+  | Some true -> "inclass=1\n"
+  | Some false -> "inclass=0\n"
+  | None -> "inclass=unread\n"
+
 let dispatch (mode : Stdlib.String.t) (f : Stdlib.String.t list) : Stdlib.String.t =
   match mode with
+  | "inclass" -> m_inclass f
   | "emitirr" -> m_emitirr f
   | "rexact" -> m_rexact f
   | "readsched" -> m_readsched f
